@@ -482,6 +482,17 @@ func redactPipelineStage(stage interface{}, redactFieldNames bool, keyPath []str
 										switch subVTyped := subV.(type) {
 										case string:
 											newSubMap.Set(subK, HashName(subVTyped))
+										case *orderedmap.OrderedMap[string, any]:
+											// e.g. $merge.into: {db: ..., coll: ...}
+											nsDoc := orderedmap.NewOrderedMap[string, any]()
+											for nsEl := subVTyped.Front(); nsEl != nil; nsEl = nsEl.Next() {
+												if nsStr, ok := nsEl.Value.(string); ok {
+													nsDoc.Set(nsEl.Key, HashName(nsStr))
+												} else {
+													nsDoc.Set(nsEl.Key, nsEl.Value)
+												}
+											}
+											newSubMap.Set(subK, nsDoc)
 										default:
 											newSubMap.Set(subK, subV)
 										}
